@@ -430,11 +430,23 @@ func c17Scenarios() []*explore.Scenario {
 		{"65536", func(L int) int { return 65536 }},
 	}
 	lists := [][]int{{}, {0}, {2}, {0, 1, 2}, {2, 0, 2, 1}, {1, 1, 1, 1, 1}, {2, 2, 0, 0, 2}}
+	// long listings of small entries: many entries per reply (more than any
+	// fixed batch a client might assume), and several replies at small msize
+	many := func(n int) []int {
+		cl := make([]int, n)
+		for i := range cl {
+			if i%7 == 3 {
+				cl[i] = 1
+			}
+		}
+		return cl
+	}
+	lists = append(lists, many(11), many(25), many(64))
 	for li, cl := range lists {
 		for _, m := range ms {
 			for bi, b := range [][]int{nil, {1, 1, 1, 1, 1}, {2, 1, 2}} {
 				tag := ""
-				if li <= 3 && bi == 0 {
+				if (li <= 3 || li >= 7) && bi == 0 {
 					tag = "q"
 				}
 				out = append(out, c17ClientScenario(fmt.Sprintf("%sclient/list%d/msize=%s/batches%d", tag, li, m.n, bi), cl, b, m.f))
